@@ -1,7 +1,7 @@
 struct ProcessResult g_completion_result, g_finished_result;
 /* wait4(pid, &status, 0, &usage): either fails (-1, errno set, possibly EINTR=4) or reaps the child once and stores an arbitrary status word */
 static inline int verif_wait4(int pid, int *status, int options, struct rusage *usage) {
-  __CPROVER_assert(!g_reaped, "[P:C10] a process is waited for until reaped, and not again");
+  __CPROVER_assert(!g_reaped, "[P:C10,P:C16] a process is waited for until reaped, and not again");
   g_waits = 1;
   if (nondet_bool()) { g_errno = nondet_int(); g_wait_result = -1; return -1; }
   g_status_word = nondet_int(); *status = g_status_word; g_reaped = 1;
@@ -14,6 +14,6 @@ static inline void verif_fd_close(struct ManagedDescriptor *fd) {
 static inline void verif_pgrp_remove(struct ProcessGroup *g, int pid) { g_removed++; }
 static inline void verif_had_error(struct ProcessDelegate *d) { g_errors++; }
 static inline void verif_process_finished(struct ProcessDelegate *d, struct ProcessContext *ctx, struct ProcessHandle h, struct ProcessResult *r) {
-  __CPROVER_assert(g_completions == 0, "[P:C10] processFinished is delivered before the completion function");
+  __CPROVER_assert(g_completions == 0, "[P:C10,P:C16] processFinished is delivered before the completion function");
   g_finished_result = *r; g_finished++; }
 static inline void verif_completion(struct completion *c, struct ProcessResult *r) { g_completion_result = *r; g_completions++; }
